@@ -11,6 +11,7 @@
 -/
 import HotXL.Model.Eval
 import HotXL.Lemmas.ErrorFlow
+import HotXL.Lemmas.NoOpinion
 
 namespace HotXL.Props.C08
 open HotXL HotXL.Ops HotXL.Eval HotXL.Syntax HotXL.ErrorFlow
@@ -633,6 +634,35 @@ example : parseTop Env.empty "IFERROR(NA(),1)".toList =
     ({ result := some (.num (.int 1)), error := none },
      [.fn "NA".toList [], .fn "IFERROR".toList [.err .na, .num (.int 1)]]) := by
   have hp : parseFormula "IFERROR(NA(),1)".toList = .ok (.call "IFERROR".toList .flat [naCall, one] []) :=
+    parse_eq_of_beq (by decide +kernel)
+  rw [parseTop_eq Env.empty _ _ (by decide) hp]
+  rfl
+
+/-! ## 8. what the model does not say
+
+Where a builtin model does not compute its result (dateutil text, the text of a float, a square
+root, …) it answers with a "no opinion" value.  That answer is absorbing: it never flows on into
+an operator or a trap as if it were a known non-error, so none of the theorems above is ever
+applied to a value the model merely did not know. -/
+
+/-- no value in flight is a no-opinion value unless the host supplied it: a call of a name the host
+    did not register yields a known value (or the evaluation is `unmodelled`), and no operator
+    yields a foreign value; a comparison of two lists / host objects is left to Python -/
+theorem values_in_flight_are_known :
+    (∀ (env : Env) (name : List Char) (args : List Value) (log log' : Log) (v : Value),
+      env.custom name = none → callFunction env name args log = (.ok v, log') → isNoOpinion v = false) ∧
+    (∀ (op : BinOp) (l r v : Value), binOfOp op l r = .ok v → ∀ t, v ≠ .other t) ∧
+    (∀ (op : CmpOp) (l r : Value), isForeign l = true → isForeign r = true →
+      evalLogicG op l r = .ok (.other "comparison-of-two-foreign-values")) :=
+  ⟨NoOpinion.builtin_value_known, NoOpinion.binOfOp_value_not_other, NoOpinion.cmp_two_foreign⟩
+
+/-- non-vacuity: `DATEVALUE("abc")` (dateutil text: no opinion) under `>` inside a trap makes the
+    whole evaluation unmodelled instead of a wrong opinion -/
+example : (parseTop Env.empty "IFNA(1>DATEVALUE(\"abc\"),2)".toList).1 =
+    { result := some (.other "unmodelled-builtin"), error := none } := by
+  have hp : parseFormula "IFNA(1>DATEVALUE(\"abc\"),2)".toList
+      = .ok (.call "IFNA".toList .flat
+          [.bin .gt one (.call "DATEVALUE".toList .flat [.str "abc".toList] []), .num (.int ['2'])] []) :=
     parse_eq_of_beq (by decide +kernel)
   rw [parseTop_eq Env.empty _ _ (by decide) hp]
   rfl
